@@ -58,7 +58,9 @@ def is_solution(cnf, assignment):
     return True
 
 def solve_cnf(cnf, *, debug=False):
-    cnf = copy(cnf)  # avoid modifying the input
+    # Avoid modifying the input. A clause is a set of literals: a repeated
+    # literal must not count twice when the length of a clause is examined.
+    cnf = [list(dict.fromkeys(clause)) for clause in cnf]
     assigns = dict()
     level = 0
     proofs = dict()
